@@ -35,7 +35,7 @@ type Disk struct {
 	rec    bool
 	events []Event
 	// optional raw-read observer (under mu)
-	OnRead func(a uint64)
+	OnRead func(a uint64, data []byte)
 	Reads  uint64
 	Writes uint64
 	Barrs  uint64
@@ -58,13 +58,13 @@ func (d *Disk) ReadTo(a uint64, b []byte) {
 		panic(fmt.Errorf("out-of-bounds read at %v", a))
 	}
 	d.Reads++
-	if d.OnRead != nil {
-		d.OnRead(a)
-	}
 	if blk, ok := d.blocks[a]; ok {
 		copy(b, blk)
 	} else {
 		copy(b, zeroBlock)
+	}
+	if d.OnRead != nil {
+		d.OnRead(a, b)
 	}
 }
 
